@@ -120,14 +120,26 @@ static int compare_prefix_wrap(const void* a, const void* b) {
     return compare_prefix(key, elm, NUM_CHARS_PREFIX);
 }
 
+/* Skip combining diacritical marks (U+0300 - U+036F). In the decomposed
+   form, these are the accents of the Latin wordlists. */
+static const char* skip_accents(const char* str) {
+    for (;;) {
+        unsigned char c0 = (unsigned char)str[0];
+        unsigned char c1 = (c0 != '\0') ? (unsigned char)str[1] : 0;
+        if ((c0 == 0xCC && c1 >= 0x80 && c1 <= 0xBF) ||
+            (c0 == 0xCD && c1 >= 0x80 && c1 <= 0xAF)) {
+            str += 2;
+        }
+        else {
+            return str;
+        }
+    }
+}
+
 static int compare_str_noaccent(const char* key, const char* elm) {
     for (;;) {
-        while ((unsigned char)*key & 0x80) { /* skip non-ASCII */
-            ++key;
-        }
-        while ((unsigned char)*elm & 0x80) { /* skip non-ASCII */
-            ++elm;
-        }
+        key = skip_accents(key);
+        elm = skip_accents(elm);
         if (*key == '\0' || *key != *elm) {
             break;
         }
@@ -145,22 +157,14 @@ static int compare_str_noaccent_wrap(const void* a, const void* b) {
 
 static int compare_prefix_noaccent(const char* key, const char* elm, int n) {
     for (int i = 1; ; ++i) {
-        while ((unsigned char)*key & 0x80) { /* skip non-ASCII */
-            ++key;
-        }
-        while ((unsigned char)*elm & 0x80) { /* skip non-ASCII */
-            ++elm;
-        }
+        key = skip_accents(key);
+        elm = skip_accents(elm);
         if (*key == '\0') {
             break;
         }
         if (i >= n) {
             /* last letter of the key? (it may be followed by accents) */
-            const char* next = key + 1;
-            while ((unsigned char)*next & 0x80) { /* skip non-ASCII */
-                ++next;
-            }
-            if (*next == '\0') {
+            if (*skip_accents(key + 1) == '\0') {
                 break;
             }
         }
@@ -170,12 +174,8 @@ static int compare_prefix_noaccent(const char* key, const char* elm, int n) {
         ++key;
         ++elm;
     }
-    while ((unsigned char)*key & 0x80) { /* skip non-ASCII */
-        ++key;
-    }
-    while ((unsigned char)*elm & 0x80) { /* skip non-ASCII */
-        ++elm;
-    }
+    key = skip_accents(key);
+    elm = skip_accents(elm);
     return (*key > *elm) - (*key < *elm);
 }
 
